@@ -198,7 +198,7 @@ fn scan_both_ways(table: &CosetTable, w: &FreeWord, start: usize)
     let n = w.len();
     let (head, i) = scan(table, w, start, n);
     let (tail, j) = scan_inverse(table, w, start, n - i);
-    (head, tail, n - i - j, if i < n { w[i] } else { w[0] })
+    (head, tail, n - i - j, if i < n { w[i] } else { 0 })
 }
 
 
@@ -237,7 +237,7 @@ pub fn coset_table(
 
                 table.join(i, n, g);
                 for w in &rels {
-                    if w[0] == g {
+                    if w.len() > 0 && w[0] == g {
                         let c = table.canon(i);
                         scan_and_connect(&mut table, w, c);
                     }
